@@ -1695,6 +1695,14 @@ class GroupBy:
                     "column. Please use `aggregate` if you really need to do this."
                 )
             result = result[result.columns[0]]
+        elif (
+            isinstance(self._slice, (list, tuple))
+            and list(result.columns) != list(self._slice)
+            and set(result.columns) == set(self._slice)
+        ):
+            # The frame was projected in its own column order; the user
+            # selected the columns in a different order
+            result = result[list(self._slice)]
         return result
 
     @derived_from(pd.core.groupby.GroupBy)
